@@ -129,6 +129,7 @@ for FullSync<'a, ItemType, OgreAllocatorType, BUFFER_SIZE, MAX_STREAMS> {
         match self.channel.publish_movable(item) {
             (Some(len_after), _none_item) => {
                 let len_after = len_after.get();
+                #[cfg(feature = "verif")] crate::verif::note(crate::verif::UNI_AFTER_PUBLISH_BEFORE_WAKE, len_after as u64);
                 #[cfg(feature = "verif")] crate::verif::point(crate::verif::UNI_AFTER_PUBLISH_BEFORE_WAKE);
                 if len_after <= MAX_STREAMS as u32 {
                     self.streams_manager.wake_stream(len_after-1)
@@ -146,6 +147,7 @@ for FullSync<'a, ItemType, OgreAllocatorType, BUFFER_SIZE, MAX_STREAMS> {
         match self.channel.publish(setter) {
             (Some(len_after), _none_setter) => {
                 let len_after = len_after.get();
+                #[cfg(feature = "verif")] crate::verif::note(crate::verif::UNI_AFTER_PUBLISH_BEFORE_WAKE, len_after as u64);
                 #[cfg(feature = "verif")] crate::verif::point(crate::verif::UNI_AFTER_PUBLISH_BEFORE_WAKE);
                 if len_after <= MAX_STREAMS as u32 {
                     self.streams_manager.wake_stream(len_after-1)
@@ -169,6 +171,7 @@ for FullSync<'a, ItemType, OgreAllocatorType, BUFFER_SIZE, MAX_STREAMS> {
                 panic!("reactive-mutiny: uni zero-copy full_sync::send_with_async() BUG! could not publish a previously leaked slot");
             };
             let len_after = len_after.get();
+            #[cfg(feature = "verif")] crate::verif::note(crate::verif::UNI_AFTER_PUBLISH_BEFORE_WAKE, len_after as u64);
             #[cfg(feature = "verif")] crate::verif::point(crate::verif::UNI_AFTER_PUBLISH_BEFORE_WAKE);
             if len_after <= MAX_STREAMS as u32 {
                 self.streams_manager.wake_stream(len_after-1)
@@ -191,6 +194,7 @@ for FullSync<'a, ItemType, OgreAllocatorType, BUFFER_SIZE, MAX_STREAMS> {
             .map(|len_after| {
                 // wake the streams, if needed
                 let len_after = len_after.get();
+                #[cfg(feature = "verif")] crate::verif::note(crate::verif::UNI_AFTER_PUBLISH_BEFORE_WAKE, len_after as u64);
                 #[cfg(feature = "verif")] crate::verif::point(crate::verif::UNI_AFTER_PUBLISH_BEFORE_WAKE);
                 if len_after <= MAX_STREAMS as u32 {
                     self.streams_manager.wake_stream(len_after % MAX_STREAMS as u32);
